@@ -26,6 +26,7 @@ Versions of important dependencies and environment.
 import json
 import platform
 
+import numpy as np
 import tskit
 
 __version__ = "undefined"
@@ -83,10 +84,19 @@ def get_provenance_dict(command, start_time=None, **kwargs):
     return document
 
 
+def _json_default(obj):
+    # Parameter values are often numpy scalars or arrays, which json cannot serialise
+    if isinstance(obj, np.generic):
+        return obj.item()
+    if isinstance(obj, np.ndarray):
+        return obj.tolist()
+    raise TypeError(f"Object of type {type(obj).__name__} is not JSON serializable")
+
+
 def record_provenance(tables, command=None, start_time=None, **kwargs):
     """
     Adds provenance information to this table collection using the
     tskit provenances schema.
     """
     record = get_provenance_dict(command=command, start_time=start_time, **kwargs)
-    tables.provenances.add_row(record=json.dumps(record))
+    tables.provenances.add_row(record=json.dumps(record, default=_json_default))
